@@ -2,7 +2,7 @@
 """Run every stored seed (/verif/seeded/*/patch.diff) against all quick checks; print the detection matrix and update meta.json."""
 import glob, json, os, subprocess, sys
 rows = []
-for d in sorted(glob.glob("/verif/seeded/*/")):
+for d in sorted(x for x in glob.glob("/verif/seeded/*/") if os.path.exists(x + "meta.json")):
     sid = os.path.basename(d.rstrip("/"))
     r = subprocess.run(["python3", "/verif/tools/run_seed.py", d + "patch.diff"], capture_output=True, text=True, cwd="/verif")
     first = r.stdout.strip().splitlines()[0] if r.stdout.strip() else r.stderr.strip()[-200:]
